@@ -21,31 +21,35 @@ func runC12NewCells(x *X) {
 		t.AddRowItems("t", "u")
 		var owners []*pOwner
 		addCellOwners := func() {
-			// (re)register every cell reachable through the table that is not yet known, with an empty model
-			known := map[*tabular.Cell]bool{}
+			// register every cell of the table that is not yet known, with an empty model; cells are identified by their
+			// location (rows are never removed), and always re-fetched through the table
+			known := map[string]bool{}
 			for _, o := range owners {
-				if cp, ok := o.get().(*tabular.Cell); ok {
-					known[cp] = true
-				}
+				known[o.name] = true
 			}
 			for ri, r := range t.AllRows() {
 				if r.IsSeparator() {
 					continue
 				}
-				cs := r.Cells()
-				for ci := range cs {
-					cp := &cs[ci]
-					if !known[cp] {
-						name := fmt.Sprintf("cell(%d,%d)", ri+1, ci+1)
-						owners = append(owners, &pOwner{name: name, get: func() tabular.PropertyOwner { return cp }, model: map[interface{}]interface{}{}})
+				for ci := range r.Cells() {
+					name := fmt.Sprintf("cell(%d,%d)", ri+1, ci+1)
+					if !known[name] {
+						loc := tabular.CellLocation{Row: ri + 1, Column: ci + 1}
+						owners = append(owners, &pOwner{name: name, get: func() tabular.PropertyOwner {
+							cp, err := t.CellAt(loc)
+							if err != nil {
+								panic("harness: CellAt: " + err.Error())
+							}
+							return cp
+						}, model: map[interface{}]interface{}{}})
 					}
 				}
 			}
-			h := t.Headers()
-			for ci := range h {
-				cp := &h[ci]
-				if !known[cp] {
-					owners = append(owners, &pOwner{name: fmt.Sprintf("header(%d)", ci+1), get: func() tabular.PropertyOwner { return cp }, model: map[interface{}]interface{}{}})
+			for ci := range t.Headers() {
+				name := fmt.Sprintf("header(%d)", ci+1)
+				if !known[name] {
+					ci := ci
+					owners = append(owners, &pOwner{name: name, get: func() tabular.PropertyOwner { return &t.Headers()[ci] }, model: map[interface{}]interface{}{}})
 				}
 			}
 		}
@@ -57,11 +61,11 @@ func runC12NewCells(x *X) {
 				if rr[i].IsSeparator() {
 					continue
 				}
-				cs := rr[i].Cells()
 				var out []*pOwner
-				for ci := range cs {
+				for ci := range rr[i].Cells() {
+					name := fmt.Sprintf("cell(%d,%d)", i+1, ci+1)
 					for _, o := range owners {
-						if o.get() == tabular.PropertyOwner(&cs[ci]) {
+						if o.name == name {
 							out = append(out, o)
 						}
 					}
